@@ -251,4 +251,194 @@ theorem parseInner_hex (env : Env R) (hd : env.decrypt = none) {buf : Buf} (body
     remainingStart_ok h3.le, hcs, hoff, decryptStr_none env hd, List.reverse_nil, List.nil_append]
   simp; omega
 
+
+/-! ### what follows a value -/
+
+/-- at `q` the input ends or the next lexeme is not `R` -/
+def NotR (buf : Buf) (q : Nat) : Prop :=
+  nextWord buf q = .err ∨ ∃ w, nextWord buf q = .ok w ∧ slice buf w.1 w.2 ≠ [82]
+
+/-- at `q` the input ends, or the next lexeme is neither `R` nor `stream` and, when it is an integer, the
+    lexeme after it is not `R`: what follows a value must not merge with it into another object -/
+def Ahead (buf : Buf) (q : Nat) : Prop :=
+  nextWord buf q = .err ∨ ∃ w, nextWord buf q = .ok w ∧ slice buf w.1 w.2 ≠ [82] ∧ slice buf w.1 w.2 ≠ kwStream ∧
+    (isInteger (slice buf w.1 w.2) = true → NotR buf w.2)
+
+theorem Ahead.notR {buf : Buf} {q : Nat} (h : Ahead buf q) : NotR buf q := by
+  rcases h with h | ⟨w, h1, h2, _⟩
+  · exact Or.inl h
+  · exact Or.inr ⟨w, h1, h2⟩
+
+theorem intFollowOK_of_ahead {buf : Buf} {q : Nat} (hq : q ≤ buf.size) (h : Ahead buf q) : IntFollowOK buf q := by
+  rcases h with h | ⟨w, h1, _, _, h4⟩
+  · exact ⟨none, q, by simp [refLookahead, next, h], hq, by simp⟩
+  · have hb := nextWord_bounds h1
+    by_cases hi : isInteger (slice buf w.1 w.2) = true
+    · rcases h4 hi with h5 | ⟨w3, h5, h6⟩
+      · exact ⟨none, w.2, by simp [refLookahead, next, h1, hi, h5], hb.2, by simp⟩
+      · refine ⟨some (w, w3), w3.2, by simp [refLookahead, next, h1, hi, h5], (nextWord_bounds h5).2, ?_⟩
+        intro w2 w3' e; simp at e; obtain ⟨_, rfl⟩ := e; exact h6
+    · exact ⟨none, w.2, by simp [refLookahead, next, h1, hi], hb.2, by simp⟩
+
+/-- after a dictionary: the next lexeme is not `stream` -/
+def DictFollowOK (buf : Buf) (q : Nat) : Prop :=
+  ∃ w, peek buf q = .ok w ∧ slice buf w.1 w.2 ≠ kwStream
+
+theorem slice_empty (buf : Buf) (q : Nat) : slice buf q q = [] := by
+  simp [slice]
+
+theorem dictFollowOK_of_ahead {buf : Buf} {q : Nat} (hq : q ≤ buf.size) (h : Ahead buf q) : DictFollowOK buf q := by
+  rcases h with h | ⟨w, h1, _, h3, _⟩
+  · refine ⟨(q, q), by simp [peek, h, newSubstr_ok (Nat.le_refl q) hq], ?_⟩
+    simp [slice_empty, kwStream]
+  · exact ⟨w, peek_ok h1, h3⟩
+
+/-- a lexeme of regular characters after a gap: `Ahead` when it is not an integer, `R` or `stream` -/
+theorem ahead_of_lexeme {buf : Buf} {q : Nat} (w : Nat × Nat) (t : List UInt8) (h1 : nextWord buf q = .ok w)
+    (h2 : slice buf w.1 w.2 = t) (hR : t ≠ [82]) (hS : t ≠ kwStream) (hI : isInteger t = true → NotR buf w.2) :
+    Ahead buf q :=
+  Or.inr ⟨w, h1, by rw [h2]; exact hR, by rw [h2]; exact hS, by rw [h2]; exact hI⟩
+
+theorem bnd_append {s t : List UInt8} (h : Bnd s) (hne : s ≠ []) : Bnd (s ++ t) := by
+  cases s with
+  | nil => exact absurd rfl hne
+  | cons b s' => simpa [Bnd] using h
+
+theorem next_name {buf : Buf} (g body rest : List UInt8) (pos : Nat) (hg : Gap g)
+    (h : Suffix buf pos (g ++ (47 :: body) ++ rest)) (hreg : ∀ b ∈ body, isRegular b = true) (hb : Bnd rest) :
+    next buf pos = .ok (pos + g.length, pos + g.length + (47 :: body).length) ∧
+      slice buf (pos + g.length) (pos + g.length + (47 :: body).length) = 47 :: body := by
+  have h' : Suffix buf pos (g ++ (47 :: body ++ rest)) := by simpa using h
+  have h2 : Suffix buf (pos + g.length) (47 :: body ++ rest) := h'.drop
+  refine ⟨?_, ?_⟩
+  · rw [next_gap g _ hg ⟨47, _, rfl, by decide, by decide⟩ pos h', lexemeAt_name body rest _ h2 hreg hb]
+    simp [Nat.add_assoc, Nat.add_comm 1]
+  · exact Suffix.slice (a := 47 :: body) (s := rest) (by simpa using h2)
+
+theorem delim_not_ws : ∀ d, isDelimiter d = true → isWhitespace d = false := by decide +kernel
+
+/-- a one-character delimiter lexeme (`[`, `]`, `(`, `<` not doubled) after a gap -/
+theorem next_delim {buf : Buf} (g : List UInt8) (d : UInt8) (rest : List UInt8) (pos : Nat) (hg : Gap g)
+    (h : Suffix buf pos (g ++ d :: rest)) (hd : isDelimiter d = true) (h47 : d ≠ 47) (h37 : d ≠ 37)
+    (hdbl : ¬ ((d = 60 ∨ d = 62) ∧ rest.head? = some d)) :
+    next buf pos = .ok (pos + g.length, pos + g.length + 1) ∧ slice buf (pos + g.length) (pos + g.length + 1) = [d] := by
+  have h2 : Suffix buf (pos + g.length) (d :: rest) := h.drop
+  have hws : isWhitespace d = false := delim_not_ws d hd
+  refine ⟨?_, ?_⟩
+  · rw [next_gap g _ hg ⟨d, _, rfl, hws, h37⟩ pos h]
+    exact lexemeAt_delim d _ _ h2 hd h47 hdbl
+  · have := Suffix.slice (a := [d]) (s := rest) (by simpa using h2)
+    simpa using this
+
+theorem next_double {buf : Buf} (g : List UInt8) (d : UInt8) (rest : List UInt8) (pos : Nat) (hg : Gap g)
+    (h : Suffix buf pos (g ++ d :: d :: rest)) (hd : d = 60 ∨ d = 62) :
+    next buf pos = .ok (pos + g.length, pos + g.length + 2) ∧ slice buf (pos + g.length) (pos + g.length + 2) = [d, d] := by
+  have h2 : Suffix buf (pos + g.length) (d :: d :: rest) := h.drop
+  have hws : isWhitespace d = false ∧ d ≠ 37 := by rcases hd with rfl | rfl <;> decide
+  refine ⟨?_, ?_⟩
+  · rw [next_gap g _ hg ⟨d, _, rfl, hws.1, hws.2⟩ pos h]
+    exact lexemeAt_double d _ _ h2 hd
+  · have := Suffix.slice (a := [d, d]) (s := rest) (by simpa using h2)
+    simpa using this
+
+
+/-- facts about a lexeme that the loops of the parser test -/
+structure LexFacts (t : List UInt8) : Prop where
+  neR : t ≠ [82]
+  neClose : t ≠ [93]
+  neStream : t ≠ kwStream
+
+theorem lexFacts_of_int {t : List UInt8} (h : isInteger t = true) : LexFacts t :=
+  ⟨by intro e; rw [e] at h; revert h; decide, by intro e; rw [e] at h; revert h; decide,
+   by intro e; rw [e] at h; revert h; decide⟩
+
+theorem lexFacts_of_real {t : List UInt8} (h : realNumber t = some t) : LexFacts t :=
+  ⟨by intro e; rw [e] at h; revert h; decide, by intro e; rw [e] at h; revert h; decide,
+   by intro e; rw [e] at h; revert h; decide⟩
+
+/-- the first lexeme of a spelling -/
+theorem spells_first (pr : List UInt8 → Option R) (x : Prim R) (tx : List UInt8) (hx : Spells pr x tx) {buf : Buf}
+    (g more : List UInt8) (q : Nat) (hg : Gap g) (h : Suffix buf q (g ++ tx ++ more))
+    (hb : needsBnd x = true → Bnd more) :
+    ∃ k t, 0 < k ∧ next buf q = .ok (q + g.length, q + g.length + k) ∧
+      slice buf (q + g.length) (q + g.length + k) = t ∧ LexFacts t ∧
+      (isInteger t = true → (k = tx.length ∧ ∃ i, x = .int i) ∨ NotR buf (q + g.length + k)) := by
+  cases x with
+  | null =>
+    simp only [Spells] at hx; subst hx
+    obtain ⟨hn, hsl⟩ := next_regular g PdfSyntax.kwNull more q hg h (by decide) kw_null_spec.2.2 (hb rfl)
+    exact ⟨_, _, by decide, hn, hsl, ⟨by decide, by decide, by decide⟩, fun hi => absurd hi (by decide)⟩
+  | bool b =>
+    simp only [Spells] at hx; subst hx
+    cases b with
+    | true =>
+      obtain ⟨hn, hsl⟩ := next_regular g PdfSyntax.kwTrue more q hg h (by decide) kw_true_spec.2.2 (hb rfl)
+      exact ⟨_, _, by decide, hn, hsl, ⟨by decide, by decide, by decide⟩, fun hi => absurd hi (by decide)⟩
+    | false =>
+      obtain ⟨hn, hsl⟩ := next_regular g PdfSyntax.kwFalse more q hg h (by decide) kw_false_spec.2.2 (hb rfl)
+      exact ⟨_, _, by decide, hn, hsl, ⟨by decide, by decide, by decide⟩, fun hi => absurd hi (by decide)⟩
+  | int i =>
+    simp only [Spells] at hx
+    obtain ⟨h1, h2, h3, h4⟩ := intTok_spec tx i hx.1 hx.2.1 hx.2.2
+    obtain ⟨hn, hsl⟩ := next_regular g tx more q hg h h3 h4 (hb rfl)
+    refine ⟨tx.length, tx, ?_, hn, hsl, lexFacts_of_int h1, fun _ => Or.inl ⟨rfl, i, rfl⟩⟩
+    cases tx with
+    | nil => exact absurd rfl h3
+    | cons => simp
+  | real r =>
+    simp only [Spells] at hx
+    obtain ⟨h1, h2, h3, h4⟩ := realTok_spec tx hx.1
+    obtain ⟨hn, hsl⟩ := next_regular g tx more q hg h h3 h4 (hb rfl)
+    refine ⟨tx.length, tx, ?_, hn, hsl, lexFacts_of_real h2, fun hi => by rw [h1] at hi; simp at hi⟩
+    cases tx with
+    | nil => exact absurd rfl h3
+    | cons => simp
+  | str s =>
+    simp only [Spells] at hx
+    rcases hx with ⟨body, rfl, hl⟩ | ⟨body, rfl, hl⟩
+    · obtain ⟨hn, hsl⟩ := next_delim g 40 (body ++ more) q hg (by simpa using h) (by decide) (by decide) (by decide) (by simp)
+      exact ⟨1, [40], by decide, hn, hsl, ⟨by decide, by decide, by decide⟩, fun hi => absurd hi (by decide)⟩
+    · have hhead : (body ++ more).head? ≠ some 60 := by
+        have := hexBody_head hl
+        cases body with
+        | nil => exact absurd rfl (hexBody_ne_nil hl)
+        | cons c b => simpa using this
+      obtain ⟨hn, hsl⟩ := next_delim g 60 (body ++ more) q hg (by simpa using h) (by decide) (by decide) (by decide)
+        (by simpa using hhead)
+      exact ⟨1, [60], by decide, hn, hsl, ⟨by decide, by decide, by decide⟩, fun hi => absurd hi (by decide)⟩
+  | name s =>
+    simp only [Spells] at hx
+    obtain ⟨body, rfl, hnb⟩ := hx
+    obtain ⟨_, hreg⟩ := nameBody_spec body s hnb
+    obtain ⟨hn, hsl⟩ := next_name g body more q hg h hreg (hb rfl)
+    refine ⟨_, _, by simp, hn, hsl, ⟨by simp, by simp, by simp [kwStream]⟩, ?_⟩
+    intro hi; simp [isInteger, allDigits, isDigit] at hi
+  | ref id gen =>
+    simp only [Spells] at hx
+    obtain ⟨a, g1, b, g2, rfl, ha, hbt, hg1, hg1ne, hg2, hg2ne, hid, hgen⟩ := hx
+    obtain ⟨a1, a2, a3, a4⟩ := natTok_spec a id ha hid
+    obtain ⟨b1, b2, b3, b4⟩ := natTok_spec b gen hbt hgen
+    have h1 : Suffix buf q (g ++ a ++ (g1 ++ b ++ g2 ++ [82] ++ more)) := by simpa using h
+    obtain ⟨hn, hsl⟩ := next_regular g a _ q hg h1 a3 a4 (by simpa using gap_bnd hg1 hg1ne _)
+    have h2 : Suffix buf (q + g.length + a.length) (g1 ++ b ++ (g2 ++ [82] ++ more)) := by
+      have := Suffix.drop (a := g ++ a) (by simpa using h1)
+      simpa [Nat.add_assoc] using this
+    obtain ⟨hn2, hsl2⟩ := next_regular g1 b _ _ hg1 h2 b3 b4 (by simpa using gap_bnd hg2 hg2ne _)
+    refine ⟨a.length, a, ?_, hn, hsl, lexFacts_of_int a1, fun _ => Or.inr (Or.inr ⟨_, hn2, ?_⟩)⟩
+    · cases a with
+      | nil => exact absurd rfl a3
+      | cons => simp
+    · rw [hsl2]; exact (lexFacts_of_int b1).neR
+  | arr xs =>
+    simp only [Spells] at hx
+    obtain ⟨g0, r, rfl, _, _⟩ := hx
+    obtain ⟨hn, hsl⟩ := next_delim g 91 (g0 ++ r ++ more) q hg (by simpa using h) (by decide) (by decide) (by decide) (by simp)
+    exact ⟨1, [91], by decide, hn, hsl, ⟨by decide, by decide, by decide⟩, fun hi => absurd hi (by decide)⟩
+  | dict kvs =>
+    simp only [Spells] at hx
+    obtain ⟨g0, r, rfl, _, _⟩ := hx
+    obtain ⟨hn, hsl⟩ := next_double g 60 (g0 ++ r ++ more) q hg (by simpa using h) (Or.inl rfl)
+    exact ⟨2, [60, 60], by decide, hn, hsl, ⟨by decide, by decide, by decide⟩, fun hi => absurd hi (by decide)⟩
+  | stream info inner => simp [Spells] at hx
+
 end PdfLex
